@@ -312,4 +312,837 @@ theorem cramer_unique {s t : Seg} (h : cross s.d t.d ≠ 0) {mu nu : Rat}
   · rw [eq_div_iff e1]; linear_combination (-t.d.2) * hx + t.d.1 * hy
   · rw [eq_div_iff e1]; linear_combination (-s.d.2) * hx + s.d.1 * hy
 
+
+/-! ### geometric form of the `inter` lemmas -/
+
+theorem inter_sound' {s t : Seg} (hs : s.nondeg) {p : Pt} (h : p ∈ inter s t) :
+    OnSeg s.a s.b p ∧ OnSeg t.a t.b p := by
+  by_cases hpar : cross s.d t.d = 0
+  · by_cases hcol : cross (psub t.a s.a) s.d = 0
+    · obtain ⟨ts, te, hta, htb, hi⟩ := inter_of_col hs ⟨hpar, hcol⟩
+      rw [hi] at h
+      obtain ⟨z, hp, h0, h1, hb, _⟩ := overlap_mem h
+      constructor
+      · exact (onSeg_iff_along s p).mpr ⟨z, h0, h1, hp⟩
+      · rw [hta, htb, hp]; exact (onSeg_along_iff (d_ne_zero hs) ts te z).mpr hb
+    · rw [inter_of_par_noncol hpar hcol] at h; cases h
+  · rw [inter_of_nonpar hpar] at h
+    split_ifs at h with hc
+    · rw [List.mem_singleton] at h
+      obtain ⟨c0, c1, c2, c3⟩ := hc
+      constructor
+      · exact (onSeg_iff_along s p).mpr ⟨_, c0, c1, h⟩
+      · exact (onSeg_iff_along t p).mpr ⟨_, c2, c3, h.trans (cramer_point hpar)⟩
+    · cases h
+
+theorem inter_complete_nonpar {s t : Seg} (hpar : cross s.d t.d ≠ 0) {q : Pt}
+    (h1 : OnSeg s.a s.b q) (h2 : OnSeg t.a t.b q) : inter s t = [q] := by
+  obtain ⟨mu, m0, m1, hq1⟩ := (onSeg_iff_along s q).mp h1
+  obtain ⟨nu, n0, n1, hq2⟩ := (onSeg_iff_along t q).mp h2
+  obtain ⟨e1, e2⟩ := cramer_unique hpar (hq1.symm.trans hq2)
+  rw [inter_of_nonpar hpar, ← e1, ← e2, if_pos ⟨m0, m1, n0, n1⟩, hq1]
+
+theorem inter_col_endpoint {s t : Seg} (hs : s.nondeg) (hc : Col s t) {x : Pt}
+    (hx : x = s.a ∨ x = s.b ∨ x = t.a ∨ x = t.b) (h1 : OnSeg s.a s.b x) (h2 : OnSeg t.a t.b x) :
+    x ∈ inter s t := by
+  have hd := d_ne_zero hs
+  obtain ⟨ts, te, hta, htb, hi⟩ := inter_of_col hs hc
+  obtain ⟨z, z0, z1, hz⟩ := (onSeg_iff_along s x).mp h1
+  have hb : Btw ts te z := by
+    have h2' := h2
+    rw [hta, htb, hz] at h2'
+    exact (onSeg_along_iff hd ts te z).mp h2'
+  rw [hi, hz]
+  apply overlap_complete z0 z1 hb
+  rcases hx with hx | hx | hx | hx
+  · right; right; left; apply along_inj hd (a := s.a); rw [← hz, hx, along_zero]
+  · right; right; right; apply along_inj hd (a := s.a); rw [← hz, hx, along_one]
+  · left; apply along_inj hd (a := s.a); rw [← hz, hx, hta]
+  · right; left; apply along_inj hd (a := s.a); rw [← hz, hx, htb]
+
+theorem inter_par_mem {s t : Seg} (hs : s.nondeg) (hpar : cross s.d t.d = 0) {p : Pt}
+    (h : p ∈ inter s t) : Col s t ∧ (p = s.a ∨ p = s.b ∨ p = t.a ∨ p = t.b) := by
+  by_cases hcol : cross (psub t.a s.a) s.d = 0
+  · refine ⟨⟨hpar, hcol⟩, ?_⟩
+    obtain ⟨ts, te, hta, htb, hi⟩ := inter_of_col hs ⟨hpar, hcol⟩
+    rw [hi] at h
+    obtain ⟨z, hp, _, _, _, he⟩ := overlap_mem h
+    rcases he with he | he | he | he
+    · right; right; left; rw [hp, he, hta]
+    · right; right; right; rw [hp, he, htb]
+    · left; rw [hp, he, along_zero]
+    · right; left; rw [hp, he, along_one]
+  · rw [inter_of_par_noncol hpar hcol] at h; cases h
+
+theorem inter_nonempty_of_common {s t : Seg} (hs : s.nondeg) {q : Pt}
+    (h1 : OnSeg s.a s.b q) (h2 : OnSeg t.a t.b q) : inter s t ≠ [] := by
+  by_cases hpar : cross s.d t.d = 0
+  · have hd := d_ne_zero hs
+    obtain ⟨mu, m0, m1, hq1⟩ := (onSeg_iff_along s q).mp h1
+    obtain ⟨nu, n0, n1, hq2⟩ := (onSeg_iff_along t q).mp h2
+    have hcol : cross (psub t.a s.a) s.d = 0 := by
+      have hx : s.a.1 + mu * s.d.1 = t.a.1 + nu * t.d.1 := congrArg Prod.fst (hq1.symm.trans hq2)
+      have hy : s.a.2 + mu * s.d.2 = t.a.2 + nu * t.d.2 := congrArg Prod.snd (hq1.symm.trans hq2)
+      simp only [cross, psub_fst, psub_snd] at hpar ⊢
+      linear_combination (-s.d.2) * hx + s.d.1 * hy + nu * hpar
+    obtain ⟨ts, te, hta, htb, hi⟩ := inter_of_col hs ⟨hpar, hcol⟩
+    rw [hi]
+    have hb : Btw ts te mu := by
+      have h2' := h2
+      rw [hta, htb, hq1] at h2'
+      exact (onSeg_along_iff hd ts te mu).mp h2'
+    exact overlap_nonempty m0 m1 hb
+  · rw [inter_complete_nonpar hpar h1 h2]; simp
+
+/-! ### parallel and collinear segments -/
+
+theorem cross_par_trans {x y d : Pt} (hd : d.1 ≠ 0 ∨ d.2 ≠ 0) (hx : cross x d = 0) (hy : cross y d = 0) :
+    cross x y = 0 := by
+  simp only [cross] at hx hy ⊢
+  have k1 : (x.1 * y.2 - x.2 * y.1) * d.1 = 0 := by linear_combination (-x.1) * hy + y.1 * hx
+  have k2 : (x.1 * y.2 - x.2 * y.1) * d.2 = 0 := by linear_combination y.2 * hx - x.2 * hy
+  rcases hd with hd | hd
+  · rcases mul_eq_zero.mp k1 with k | k
+    · exact k
+    · exact absurd k hd
+  · rcases mul_eq_zero.mp k2 with k | k
+    · exact k
+    · exact absurd k hd
+
+theorem cross_swap (x y : Pt) : cross x y = - cross y x := by simp only [cross]; ring
+
+theorem Col.symm' {s t : Seg} (hs : s.nondeg) (h : Col s t) : Col t s := by
+  have hd := d_ne_zero hs
+  obtain ⟨h1, h2⟩ := h
+  have h1' : cross t.d s.d = 0 := by rw [cross_swap, h1]; ring
+  refine ⟨h1', ?_⟩
+  have := cross_par_trans hd h2 h1'
+  simp only [cross, psub_fst, psub_snd] at this ⊢
+  linear_combination (-1 : Rat) * this
+
+theorem Col.trans' {s t u : Seg} (hs : s.nondeg) (h1 : Col s t) (h2 : Col s u) : Col t u := by
+  have hd := d_ne_zero hs
+  obtain ⟨a1, a2⟩ := h1
+  obtain ⟨b1, b2⟩ := h2
+  have a1' : cross t.d s.d = 0 := by rw [cross_swap, a1]; ring
+  have b1' : cross u.d s.d = 0 := by rw [cross_swap, b1]; ring
+  refine ⟨cross_par_trans hd a1' b1', ?_⟩
+  have k1 := cross_par_trans hd b2 a1'
+  have k2 := cross_par_trans hd a2 a1'
+  simp only [cross, psub_fst, psub_snd] at k1 k2 ⊢
+  linear_combination k1 - k2
+
+theorem nonpar_transfer {s t u : Seg} (ht : t.nondeg) (h : Col s t) (hn : cross s.d u.d ≠ 0) :
+    cross t.d u.d ≠ 0 := by
+  intro hc
+  apply hn
+  have hd := d_ne_zero ht
+  have c2 : cross u.d t.d = 0 := by rw [cross_swap, hc]; ring
+  exact cross_par_trans hd h.1 c2
+
+/-- parallel segments with a common point are collinear -/
+theorem col_of_par_common {s t : Seg} (hpar : cross s.d t.d = 0) {q : Pt}
+    (h1 : OnSeg s.a s.b q) (h2 : OnSeg t.a t.b q) : Col s t := by
+  obtain ⟨mu, m0, m1, hq1⟩ := (onSeg_iff_along s q).mp h1
+  obtain ⟨nu, n0, n1, hq2⟩ := (onSeg_iff_along t q).mp h2
+  refine ⟨hpar, ?_⟩
+  have hx : s.a.1 + mu * s.d.1 = t.a.1 + nu * t.d.1 := congrArg Prod.fst (hq1.symm.trans hq2)
+  have hy : s.a.2 + mu * s.d.2 = t.a.2 + nu * t.d.2 := congrArg Prod.snd (hq1.symm.trans hq2)
+  simp only [cross, psub_fst, psub_snd] at hpar ⊢
+  linear_combination (-s.d.2) * hx + s.d.1 * hy + nu * hpar
+
+/-! ### convexity -/
+
+theorem onSeg_of_along_ends {a d : Pt} {x y : Rat} {p : Pt} (h : OnSeg (along a d x) (along a d y) p) :
+    ∃ z : Rat, p = along a d z ∧ Btw x y z := by
+  obtain ⟨l, l0, l1, hx, hy⟩ := h
+  simp only [along_fst, along_snd] at hx hy
+  refine ⟨x + l * (y - x), pt_ext ?_ ?_, ?_⟩
+  · simp only [along_fst]; rw [hx]; ring
+  · simp only [along_snd]; rw [hy]; ring
+  · unfold Btw
+    rcases le_total x y with hxy | hxy
+    · left
+      have := mul_nonneg l0 (sub_nonneg.mpr hxy)
+      have h2 : 0 ≤ (1 - l) * (y - x) := mul_nonneg (by linarith) (sub_nonneg.mpr hxy)
+      constructor <;> nlinarith
+    · right
+      have := mul_nonneg l0 (sub_nonneg.mpr hxy)
+      have h2 : 0 ≤ (1 - l) * (x - y) := mul_nonneg (by linarith) (sub_nonneg.mpr hxy)
+      constructor <;> nlinarith
+
+theorem btw_range {x y z : Rat} (hx : 0 ≤ x ∧ x ≤ 1) (hy : 0 ≤ y ∧ y ≤ 1) (h : Btw x y z) : 0 ≤ z ∧ z ≤ 1 := by
+  unfold Btw at h; grind
+
+theorem btw_convex {a b x y z : Rat} (hx : Btw a b x) (hy : Btw a b y) (h : Btw x y z) : Btw a b z := by
+  unfold Btw at *; grind
+
+/-- a point on a segment between two points of `s` lies on `s` -/
+theorem onSeg_trans {s : Seg} {u v q : Pt} (hu : OnSeg s.a s.b u) (hv : OnSeg s.a s.b v)
+    (hq : OnSeg u v q) : OnSeg s.a s.b q := by
+  obtain ⟨x, x0, x1, rfl⟩ := (onSeg_iff_along s u).mp hu
+  obtain ⟨y, y0, y1, rfl⟩ := (onSeg_iff_along s v).mp hv
+  obtain ⟨z, rfl, hb⟩ := onSeg_of_along_ends hq
+  have := btw_range ⟨x0, x1⟩ ⟨y0, y1⟩ hb
+  exact (onSeg_iff_along s _).mpr ⟨z, this.1, this.2, rfl⟩
+
+/-! ### lists: `dedup`, `sortFrom`, `consec` -/
+
+theorem mem_dedup (p : Pt) (l : List Pt) : p ∈ dedup l ↔ p ∈ l := by
+  induction l with
+  | nil => simp [dedup]
+  | cons a l ih =>
+    unfold dedup
+    by_cases h : a ∈ l
+    · rw [if_pos h, ih, List.mem_cons]
+      constructor
+      · exact Or.inr
+      · rintro (rfl | h') <;> assumption
+    · rw [if_neg h, List.mem_cons, List.mem_cons, ih]
+
+theorem nodup_dedup (l : List Pt) : (dedup l).Nodup := by
+  induction l with
+  | nil => simp [dedup]
+  | cons a l ih =>
+    unfold dedup
+    by_cases h : a ∈ l
+    · rw [if_pos h]; exact ih
+    · rw [if_neg h]
+      exact List.nodup_cons.mpr ⟨fun hc => h ((mem_dedup a l).mp hc), ih⟩
+
+theorem mem_insertBy (a p x : Pt) (l : List Pt) : x ∈ insertBy a p l ↔ x = p ∨ x ∈ l := by
+  induction l with
+  | nil => simp [insertBy]
+  | cons y l ih =>
+    unfold insertBy
+    split_ifs
+    · simp
+    · rw [List.mem_cons, ih, List.mem_cons]
+      constructor
+      · rintro (h | h | h)
+        · exact Or.inr (Or.inl h)
+        · exact Or.inl h
+        · exact Or.inr (Or.inr h)
+      · rintro (h | h | h)
+        · exact Or.inr (Or.inl h)
+        · exact Or.inl h
+        · exact Or.inr (Or.inr h)
+
+theorem mem_sortFrom (a x : Pt) (l : List Pt) : x ∈ sortFrom a l ↔ x ∈ l := by
+  induction l with
+  | nil => simp [sortFrom]
+  | cons y l ih => unfold sortFrom; rw [mem_insertBy, ih, List.mem_cons]
+
+theorem nodup_insertBy (a p : Pt) (l : List Pt) (hp : p ∉ l) (hl : l.Nodup) : (insertBy a p l).Nodup := by
+  induction l with
+  | nil => simp [insertBy]
+  | cons y l ih =>
+    unfold insertBy
+    split_ifs
+    · exact List.nodup_cons.mpr ⟨hp, hl⟩
+    · have hy := List.nodup_cons.mp hl
+      refine List.nodup_cons.mpr ⟨?_, ih (fun h => hp (List.mem_cons_of_mem _ h)) hy.2⟩
+      rw [mem_insertBy]
+      rintro (h | h)
+      · exact hp (h ▸ List.mem_cons_self)
+      · exact hy.1 h
+
+theorem nodup_sortFrom (a : Pt) (l : List Pt) (hl : l.Nodup) : (sortFrom a l).Nodup := by
+  induction l with
+  | nil => simp [sortFrom]
+  | cons y l ih =>
+    unfold sortFrom
+    have hy := List.nodup_cons.mp hl
+    exact nodup_insertBy a y _ (fun h => hy.1 ((mem_sortFrom a y l).mp h)) (ih hy.2)
+
+theorem pairwise_insertBy (a p : Pt) (l : List Pt)
+    (hl : l.Pairwise (fun x y => dist2 x a ≤ dist2 y a)) :
+    (insertBy a p l).Pairwise (fun x y => dist2 x a ≤ dist2 y a) := by
+  induction l with
+  | nil => simp [insertBy]
+  | cons y l ih =>
+    unfold insertBy
+    have hy := List.pairwise_cons.mp hl
+    split_ifs with hc
+    · refine List.pairwise_cons.mpr ⟨?_, hl⟩
+      intro z hz
+      rcases List.mem_cons.mp hz with rfl | hz
+      · exact hc
+      · exact le_trans hc (hy.1 z hz)
+    · refine List.pairwise_cons.mpr ⟨?_, ih hy.2⟩
+      intro z hz
+      rcases (mem_insertBy a p z l).mp hz with rfl | hz
+      · exact le_of_lt (not_le.mp hc)
+      · exact hy.1 z hz
+
+theorem pairwise_sortFrom (a : Pt) (l : List Pt) :
+    (sortFrom a l).Pairwise (fun x y => dist2 x a ≤ dist2 y a) := by
+  induction l with
+  | nil => simp [sortFrom]
+  | cons y l ih => unfold sortFrom; exact pairwise_insertBy a y _ ih
+
+theorem consec_split {l : List Pt} {u v : Pt} (h : (u, v) ∈ consec l) :
+    ∃ pre post, l = pre ++ u :: v :: post := by
+  induction l with
+  | nil => simp [consec] at h
+  | cons p l ih =>
+    cases l with
+    | nil => simp [consec] at h
+    | cons q r =>
+      simp only [consec, List.mem_cons] at h
+      rcases h with h | h
+      · obtain ⟨rfl, rfl⟩ := Prod.mk.inj h
+        exact ⟨[], r, rfl⟩
+      · obtain ⟨pre, post, e⟩ := ih h
+        exact ⟨p :: pre, post, by rw [e]; rfl⟩
+
+theorem consec_mem {l : List Pt} {u v : Pt} (h : (u, v) ∈ consec l) : u ∈ l ∧ v ∈ l := by
+  obtain ⟨pre, post, rfl⟩ := consec_split h
+  simp
+
+theorem consec_ne {l : List Pt} (hl : l.Nodup) {u v : Pt} (h : (u, v) ∈ consec l) : u ≠ v := by
+  obtain ⟨pre, post, rfl⟩ := consec_split h
+  have := (List.nodup_append.mp hl).2.1
+  have := (List.nodup_cons.mp this).1
+  intro e; apply this; rw [e]; exact List.mem_cons_self
+
+theorem consec_sorted {a : Pt} {l : List Pt} (hs : l.Pairwise (fun x y => dist2 x a ≤ dist2 y a))
+    {u v x : Pt} (he : (u, v) ∈ consec l) (hx : x ∈ l) :
+    dist2 u a ≤ dist2 v a ∧ (dist2 x a ≤ dist2 u a ∨ dist2 v a ≤ dist2 x a) := by
+  obtain ⟨pre, post, rfl⟩ := consec_split he
+  rw [List.pairwise_append] at hs
+  obtain ⟨_, h2, h3⟩ := hs
+  have h4 := List.pairwise_cons.mp h2
+  have h5 := List.pairwise_cons.mp h4.2
+  refine ⟨h4.1 v List.mem_cons_self, ?_⟩
+  rcases List.mem_append.mp hx with hx | hx
+  · left; exact h3 x hx u List.mem_cons_self
+  · rcases List.mem_cons.mp hx with rfl | hx
+    · left; exact le_refl _
+    · rcases List.mem_cons.mp hx with rfl | hx
+      · right; exact le_refl _
+      · right; exact h5.1 x hx
+
+/-- discrete intermediate value: a list with at least two entries either stays strictly on one side
+    of the level `k`, or has a consecutive pair straddling it -/
+theorem ivt (c : Pt → Rat) (k : Rat) : ∀ l : List Pt, 2 ≤ l.length →
+    (∀ x ∈ l, c x < k) ∨ (∀ x ∈ l, k < c x) ∨ ∃ e ∈ consec l, Btw (c e.1) (c e.2) k := by
+  intro l
+  induction l with
+  | nil => intro h; simp at h
+  | cons p l ih =>
+    intro hlen
+    cases l with
+    | nil => simp at hlen
+    | cons q r =>
+      have base : (c p < k ∧ c q < k) ∨ (k < c p ∧ k < c q) ∨ Btw (c p) (c q) k := by
+        unfold Btw; grind
+      cases r with
+      | nil =>
+        rcases base with h | h | h
+        · left; intro x hx; simp at hx; rcases hx with rfl | rfl <;> [exact h.1; exact h.2]
+        · right; left; intro x hx; simp at hx; rcases hx with rfl | rfl <;> [exact h.1; exact h.2]
+        · right; right; exact ⟨(p, q), by simp [consec], h⟩
+      | cons r1 r2 =>
+        have ih' := ih (by simp)
+        rcases ih' with h | h | ⟨e, he, hb⟩
+        · rcases base with hb | hb | hb
+          · left; intro x hx
+            rcases List.mem_cons.mp hx with rfl | hx
+            · exact hb.1
+            · exact h x hx
+          · exfalso; have := h q List.mem_cons_self; linarith [hb.2]
+          · right; right; exact ⟨(p, q), by simp [consec], hb⟩
+        · rcases base with hb | hb | hb
+          · exfalso; have := h q List.mem_cons_self; linarith [hb.2]
+          · right; left; intro x hx
+            rcases List.mem_cons.mp hx with rfl | hx
+            · exact hb.1
+            · exact h x hx
+          · right; right; exact ⟨(p, q), by simp [consec], hb⟩
+        · right; right
+          refine ⟨e, ?_, hb⟩
+          show e ∈ consec (p :: q :: r1 :: r2)
+          rw [consec]; exact List.mem_cons_of_mem _ he
+
+
+/-! ### split points and pieces of one parent -/
+
+theorem mem_splitPts {segs : List Seg} {s : Seg} {x : Pt} :
+    x ∈ splitPts segs s ↔ x = s.a ∨ x = s.b ∨ ∃ u ∈ segs, x ∈ inter s u := by
+  unfold splitPts
+  rw [mem_dedup, List.mem_cons, List.mem_cons, List.mem_flatMap]
+
+theorem splitPts_onSeg {segs : List Seg} {s : Seg} (hs : s.nondeg) {x : Pt}
+    (hx : x ∈ splitPts segs s) : OnSeg s.a s.b x := by
+  rcases mem_splitPts.mp hx with rfl | rfl | ⟨u, _, hu⟩
+  · exact onSeg_left _ _
+  · exact onSeg_right _ _
+  · exact (inter_sound' hs hu).1
+
+theorem dist2_along (a d : Pt) (t : Rat) :
+    dist2 (along a d t) a = t * t * (d.1 * d.1 + d.2 * d.2) := by
+  simp only [dist2, along_fst, along_snd]; ring
+
+theorem sq_mono {x y D : Rat} (_hx : 0 ≤ x) (hy : 0 ≤ y) (hD : 0 < D) (h : x * x * D ≤ y * y * D) :
+    x ≤ y := by
+  by_contra hc
+  have hc := not_le.mp hc
+  have : 0 < (x - y) * (x + y) * D := mul_pos (mul_pos (by linarith) (by linarith)) hD
+  nlinarith
+
+theorem normSq_pos {d : Pt} (hd : d.1 ≠ 0 ∨ d.2 ≠ 0) : 0 < d.1 * d.1 + d.2 * d.2 := by
+  rcases hd with h | h
+  · have := mul_self_pos.mpr h; nlinarith [mul_self_nonneg d.2]
+  · have := mul_self_pos.mpr h; nlinarith [mul_self_nonneg d.1]
+
+theorem pieces_mem {segs : List Seg} {s : Seg} {u v : Pt} (he : (u, v) ∈ pieces segs s) :
+    u ∈ splitPts segs s ∧ v ∈ splitPts segs s := by
+  have he0 : (u, v) ∈ consec (sortFrom s.a (splitPts segs s)) := he
+  have hm := consec_mem he0
+  exact ⟨(mem_sortFrom _ _ _).mp hm.1, (mem_sortFrom _ _ _).mp hm.2⟩
+
+theorem pieces_ne {segs : List Seg} {s : Seg} {u v : Pt} (he : (u, v) ∈ pieces segs s) : u ≠ v := by
+  have he0 : (u, v) ∈ consec (sortFrom s.a (splitPts segs s)) := he
+  exact consec_ne (nodup_sortFrom _ _ (nodup_dedup _)) he0
+
+/-- key lemma: no split point of the parent lies strictly inside one of its pieces -/
+theorem piece_no_interior {segs : List Seg} {s : Seg} (hs : s.nondeg) {u v x : Pt}
+    (he : (u, v) ∈ pieces segs s) (hx : x ∈ splitPts segs s) (hb : OnSeg u v x) : x = u ∨ x = v := by
+  have hd := d_ne_zero hs
+  have hD := normSq_pos hd
+  have he0 : (u, v) ∈ consec (sortFrom s.a (splitPts segs s)) := he
+  have hmem := pieces_mem he
+  have hu := splitPts_onSeg hs hmem.1
+  have hv := splitPts_onSeg hs hmem.2
+  have hxs := splitPts_onSeg hs hx
+  obtain ⟨hle, hcase⟩ := consec_sorted (pairwise_sortFrom s.a _) he0 ((mem_sortFrom _ _ _).mpr hx)
+  obtain ⟨xu, u0, u1, rfl⟩ := (onSeg_iff_along s u).mp hu
+  obtain ⟨xv, v0, v1, rfl⟩ := (onSeg_iff_along s v).mp hv
+  obtain ⟨xx, x0, x1, rfl⟩ := (onSeg_iff_along s x).mp hxs
+  have hbt := (onSeg_along_iff hd xu xv xx).mp hb
+  rw [dist2_along, dist2_along] at hle
+  have huv := sq_mono u0 v0 hD hle
+  rcases hcase with hc | hc
+  · rw [dist2_along, dist2_along] at hc
+    have := sq_mono x0 u0 hD hc
+    left; congr 1; rcases hbt with h | h <;> linarith [h.1, h.2]
+  · rw [dist2_along, dist2_along] at hc
+    have := sq_mono v0 x0 hD hc
+    right; congr 1; rcases hbt with h | h <;> linarith [h.1, h.2]
+
+theorem two_le_length {l : List Pt} {x y : Pt} (hx : x ∈ l) (hy : y ∈ l) (h : x ≠ y) : 2 ≤ l.length := by
+  cases l with
+  | nil => cases hx
+  | cons p l =>
+    cases l with
+    | nil =>
+      simp at hx hy; exact absurd (hx.trans hy.symm) h
+    | cons q r => simp
+
+theorem btw_scale {x y z D : Rat} (hD : 0 < D) (h : Btw (x * D) (y * D) (z * D)) : Btw x y z := by
+  rcases h with ⟨h1, h2⟩ | ⟨h1, h2⟩
+  · exact Or.inl ⟨le_of_mul_le_mul_right h1 hD, le_of_mul_le_mul_right h2 hD⟩
+  · exact Or.inr ⟨le_of_mul_le_mul_right h1 hD, le_of_mul_le_mul_right h2 hD⟩
+
+/-- the pieces of a parent cover it -/
+theorem pieces_cover {segs : List Seg} {s : Seg} (hs : s.nondeg) {q : Pt} (hq : OnSeg s.a s.b q) :
+    ∃ e ∈ pieces segs s, OnSeg e.1 e.2 q := by
+  have hd := d_ne_zero hs
+  have hD := normSq_pos hd
+  have hc : ∀ t : Rat, (fun p : Pt => (p.1 - s.a.1) * s.d.1 + (p.2 - s.a.2) * s.d.2) (along s.a s.d t)
+      = t * (s.d.1 * s.d.1 + s.d.2 * s.d.2) := by
+    intro t; simp only [along_fst, along_snd]; ring
+  generalize hcdef : (fun p : Pt => (p.1 - s.a.1) * s.d.1 + (p.2 - s.a.2) * s.d.2) = c at hc
+  obtain ⟨z, z0, z1, rfl⟩ := (onSeg_iff_along s q).mp hq
+  have ha : s.a ∈ sortFrom s.a (splitPts segs s) :=
+    (mem_sortFrom _ _ _).mpr (mem_splitPts.mpr (Or.inl rfl))
+  have hb : s.b ∈ sortFrom s.a (splitPts segs s) :=
+    (mem_sortFrom _ _ _).mpr (mem_splitPts.mpr (Or.inr (Or.inl rfl)))
+  have hlen := two_le_length ha hb hs
+  have ca : c s.a = 0 := by
+    have := hc 0; rw [along_zero] at this; rw [this]; ring
+  have cb : c s.b = s.d.1 * s.d.1 + s.d.2 * s.d.2 := by
+    have := hc 1; rw [along_one] at this; rw [this]; ring
+  rcases ivt c (c (along s.a s.d z)) _ hlen with h | h | ⟨e, he, hbt⟩
+  · exfalso
+    have := h s.b hb
+    rw [cb, hc] at this
+    nlinarith
+  · exfalso
+    have := h s.a ha
+    rw [ca, hc] at this
+    nlinarith
+  · refine ⟨e, he, ?_⟩
+    have hm := pieces_mem (u := e.1) (v := e.2) he
+    obtain ⟨xu, u0, u1, hu⟩ := (onSeg_iff_along s e.1).mp (splitPts_onSeg hs hm.1)
+    obtain ⟨xv, v0, v1, hv⟩ := (onSeg_iff_along s e.2).mp (splitPts_onSeg hs hm.2)
+    rw [hu, hv] at hbt ⊢
+    rw [hc, hc, hc] at hbt
+    exact (onSeg_along_iff hd xu xv z).mpr (btw_scale hD hbt)
+
+/-- inside an overlap, collinear parents have the same split points -/
+theorem splitPts_transfer {segs : List Seg} (hall : ∀ u ∈ segs, u.nondeg) {s t : Seg}
+    (hs : s ∈ segs) (ht : t ∈ segs) (hc : Col s t) {x : Pt} (hx : x ∈ splitPts segs s)
+    (hxt : OnSeg t.a t.b x) : x ∈ splitPts segs t := by
+  have hsn := hall s hs
+  have htn := hall t ht
+  have hxs := splitPts_onSeg hsn hx
+  have hts : Col t s := Col.symm' hsn hc
+  have endA : s.a = x → x ∈ splitPts segs t := fun e =>
+    mem_splitPts.mpr (Or.inr (Or.inr ⟨s, hs,
+      inter_col_endpoint htn hts (Or.inr (Or.inr (Or.inl e.symm))) hxt hxs⟩))
+  have endB : s.b = x → x ∈ splitPts segs t := fun e =>
+    mem_splitPts.mpr (Or.inr (Or.inr ⟨s, hs,
+      inter_col_endpoint htn hts (Or.inr (Or.inr (Or.inr e.symm))) hxt hxs⟩))
+  rcases mem_splitPts.mp hx with e | e | ⟨u, hu, hxu⟩
+  · exact endA e.symm
+  · exact endB e.symm
+  · have hun := hall u hu
+    have hxu' := (inter_sound' hsn hxu).2
+    by_cases hpar : cross s.d u.d = 0
+    · obtain ⟨hcu, hend⟩ := inter_par_mem hsn hpar hxu
+      have htu : Col t u := Col.trans' hsn hc hcu
+      rcases hend with e | e | e | e
+      · exact endA e.symm
+      · exact endB e.symm
+      · exact mem_splitPts.mpr (Or.inr (Or.inr ⟨u, hu,
+          inter_col_endpoint htn htu (Or.inr (Or.inr (Or.inl e))) hxt hxu'⟩))
+      · exact mem_splitPts.mpr (Or.inr (Or.inr ⟨u, hu,
+          inter_col_endpoint htn htu (Or.inr (Or.inr (Or.inr e))) hxt hxu'⟩))
+    · have := nonpar_transfer htn hc hpar
+      exact mem_splitPts.mpr (Or.inr (Or.inr ⟨u, hu, by
+        rw [inter_complete_nonpar this hxt hxu']; exact List.mem_singleton.mpr rfl⟩))
+
+/-! ### the one-dimensional argument for two collinear parents -/
+
+theorem oneD_ordered (SPs SPt : Rat → Prop) (x1 x2 y1 y2 z ts te : Rat)
+    (hx1 : 0 ≤ x1 ∧ x1 ≤ 1) (hx2 : 0 ≤ x2 ∧ x2 ≤ 1) (hy1 : Btw ts te y1) (hy2 : Btw ts te y2)
+    (hz1 : x1 < z) (hz2 : z < x2) (hz3 : y1 ≤ z) (hz4 : z ≤ y2)
+    (sx1 : SPs x1) (sx2 : SPs x2) (sy1 : SPt y1) (sy2 : SPt y2)
+    (KLs : ∀ w, SPs w → x1 ≤ w → w ≤ x2 → w = x1 ∨ w = x2)
+    (KLt : ∀ w, SPt w → y1 ≤ w → w ≤ y2 → w = y1 ∨ w = y2)
+    (K1 : ∀ w, SPs w → Btw ts te w → SPt w)
+    (K2 : ∀ w, SPt w → 0 ≤ w → w ≤ 1 → SPs w) : x1 = y1 ∧ x2 = y2 := by
+  have c1 : y1 ≤ x1 := by
+    by_contra hc
+    have hc := not_le.mp hc
+    rcases KLs y1 (K2 y1 sy1 (by linarith [hx1.1]) (by linarith [hx2.2])) (le_of_lt hc) (by linarith)
+      with h | h <;> linarith
+  have c2 : x2 ≤ y2 := by
+    by_contra hc
+    have hc := not_le.mp hc
+    rcases KLs y2 (K2 y2 sy2 (by linarith [hx1.1]) (by linarith [hx2.2])) (by linarith) (le_of_lt hc)
+      with h | h <;> linarith
+  have b1 : Btw ts te x1 := btw_convex hy1 hy2 (Or.inl ⟨c1, by linarith⟩)
+  have b2 : Btw ts te x2 := btw_convex hy1 hy2 (Or.inl ⟨by linarith, c2⟩)
+  constructor
+  · rcases KLt x1 (K1 x1 sx1 b1) c1 (by linarith) with h | h <;> linarith
+  · rcases KLt x2 (K1 x2 sx2 b2) (by linarith) c2 with h | h <;> linarith
+
+theorem oneD (SPs SPt : Rat → Prop) (x1 x2 y1 y2 z ts te : Rat)
+    (hx1 : 0 ≤ x1 ∧ x1 ≤ 1) (hx2 : 0 ≤ x2 ∧ x2 ≤ 1) (hy1 : Btw ts te y1) (hy2 : Btw ts te y2)
+    (hzx : Btw x1 x2 z) (hzy : Btw y1 y2 z)
+    (sx1 : SPs x1) (sx2 : SPs x2) (sy1 : SPt y1) (sy2 : SPt y2)
+    (KLs : ∀ w, SPs w → Btw x1 x2 w → w = x1 ∨ w = x2)
+    (KLt : ∀ w, SPt w → Btw y1 y2 w → w = y1 ∨ w = y2)
+    (K1 : ∀ w, SPs w → Btw ts te w → SPt w)
+    (K2 : ∀ w, SPt w → 0 ≤ w → w ≤ 1 → SPs w) :
+    (z = x1 ∨ z = x2) ∨ ((x1 = y1 ∧ x2 = y2) ∨ (x1 = y2 ∧ x2 = y1)) := by
+  by_cases e1 : z = x1
+  · exact Or.inl (Or.inl e1)
+  by_cases e2 : z = x2
+  · exact Or.inl (Or.inr e2)
+  right
+  rcases hzx with ⟨a1, a2⟩ | ⟨a1, a2⟩ <;> rcases hzy with ⟨b1, b2⟩ | ⟨b1, b2⟩
+  · left
+    exact oneD_ordered SPs SPt x1 x2 y1 y2 z ts te hx1 hx2 hy1 hy2
+      (lt_of_le_of_ne a1 (Ne.symm e1)) (lt_of_le_of_ne a2 e2) b1 b2 sx1 sx2 sy1 sy2
+      (fun w hw h1 h2 => KLs w hw (Or.inl ⟨h1, h2⟩)) (fun w hw h1 h2 => KLt w hw (Or.inl ⟨h1, h2⟩)) K1 K2
+  · right
+    exact oneD_ordered SPs SPt x1 x2 y2 y1 z ts te hx1 hx2 hy2 hy1
+      (lt_of_le_of_ne a1 (Ne.symm e1)) (lt_of_le_of_ne a2 e2) b1 b2 sx1 sx2 sy2 sy1
+      (fun w hw h1 h2 => KLs w hw (Or.inl ⟨h1, h2⟩))
+      (fun w hw h1 h2 => (KLt w hw (Or.inr ⟨h1, h2⟩)).symm) K1 K2
+  · right
+    have := oneD_ordered SPs SPt x2 x1 y1 y2 z ts te hx2 hx1 hy1 hy2
+      (lt_of_le_of_ne a1 (Ne.symm e2)) (lt_of_le_of_ne a2 e1) b1 b2 sx2 sx1 sy1 sy2
+      (fun w hw h1 h2 => (KLs w hw (Or.inr ⟨h1, h2⟩)).symm)
+      (fun w hw h1 h2 => KLt w hw (Or.inl ⟨h1, h2⟩)) K1 K2
+    exact ⟨this.2, this.1⟩
+  · left
+    have := oneD_ordered SPs SPt x2 x1 y2 y1 z ts te hx2 hx1 hy2 hy1
+      (lt_of_le_of_ne a1 (Ne.symm e2)) (lt_of_le_of_ne a2 e1) b1 b2 sx2 sx1 sy2 sy1
+      (fun w hw h1 h2 => (KLs w hw (Or.inr ⟨h1, h2⟩)).symm)
+      (fun w hw h1 h2 => (KLt w hw (Or.inr ⟨h1, h2⟩)).symm) K1 K2
+    exact ⟨this.2, this.1⟩
+
+/-- pieces of two collinear parents: a common point strictly inside the first piece forces the two
+    pieces to be the same edge -/
+theorem col_meet {segs : List Seg} (hall : ∀ u ∈ segs, u.nondeg) {s t : Seg}
+    (hs : s ∈ segs) (ht : t ∈ segs) (hc : Col s t) {u v u' v' q : Pt}
+    (he : (u, v) ∈ pieces segs s) (he' : (u', v') ∈ pieces segs t)
+    (hq : OnSeg u v q) (hq' : OnSeg u' v' q) :
+    (q = u ∨ q = v) ∨ ((u = u' ∧ v = v') ∨ (u = v' ∧ v = u')) := by
+  have hsn := hall s hs
+  have htn := hall t ht
+  have hd := d_ne_zero hsn
+  have hts := Col.symm' hsn hc
+  have hm := pieces_mem he
+  have hm' := pieces_mem he'
+  obtain ⟨ts, te, hta, htb, _⟩ := inter_of_col hsn hc
+  obtain ⟨x1, x10, x11, hu⟩ := (onSeg_iff_along s u).mp (splitPts_onSeg hsn hm.1)
+  obtain ⟨x2, x20, x21, hv⟩ := (onSeg_iff_along s v).mp (splitPts_onSeg hsn hm.2)
+  have hu't := splitPts_onSeg htn hm'.1
+  have hv't := splitPts_onSeg htn hm'.2
+  rw [hta, htb] at hu't hv't
+  obtain ⟨y1, hu', hy1⟩ := onSeg_of_along_ends hu't
+  obtain ⟨y2, hv', hy2⟩ := onSeg_of_along_ends hv't
+  subst hu hv hu' hv'
+  obtain ⟨z, hz, hzx⟩ := onSeg_of_along_ends hq
+  obtain ⟨z', hz', hzy⟩ := onSeg_of_along_ends hq'
+  have hzz : z' = z := along_inj hd (hz'.symm.trans hz)
+  subst hzz
+  subst hz
+  have R := oneD (fun w => along s.a s.d w ∈ splitPts segs s) (fun w => along s.a s.d w ∈ splitPts segs t)
+    x1 x2 y1 y2 z' ts te ⟨x10, x11⟩ ⟨x20, x21⟩ hy1 hy2 hzx hzy hm.1 hm.2 hm'.1 hm'.2
+    (fun w hw hb => by
+      rcases piece_no_interior hsn he hw ((onSeg_along_iff hd x1 x2 w).mpr hb) with h | h
+      · left; exact along_inj hd h
+      · right; exact along_inj hd h)
+    (fun w hw hb => by
+      rcases piece_no_interior htn he' hw ((onSeg_along_iff hd y1 y2 w).mpr hb) with h | h
+      · left; exact along_inj hd h
+      · right; exact along_inj hd h)
+    (fun w hw hb => splitPts_transfer hall hs ht hc hw (by
+      rw [hta, htb]; exact (onSeg_along_iff hd ts te w).mpr hb))
+    (fun w hw h0 h1 => splitPts_transfer hall ht hs hts hw ((onSeg_iff_along s _).mpr ⟨w, h0, h1, rfl⟩))
+  rcases R with (h | h) | (⟨h1, h2⟩ | ⟨h1, h2⟩)
+  · left; left; rw [h]
+  · left; right; rw [h]
+  · right; left; rw [h1, h2]; exact ⟨rfl, rfl⟩
+  · right; right; rw [h1, h2]; exact ⟨rfl, rfl⟩
+
+/-- two pieces (of any two parents) meet only in common end points, unless they are the same edge -/
+theorem meet {segs : List Seg} (hall : ∀ u ∈ segs, u.nondeg) {s t : Seg}
+    (hs : s ∈ segs) (ht : t ∈ segs) {u v u' v' q : Pt}
+    (he : (u, v) ∈ pieces segs s) (he' : (u', v') ∈ pieces segs t)
+    (hq : OnSeg u v q) (hq' : OnSeg u' v' q) :
+    ((q = u ∨ q = v) ∧ (q = u' ∨ q = v')) ∨ ((u = u' ∧ v = v') ∨ (u = v' ∧ v = u')) := by
+  have hsn := hall s hs
+  have htn := hall t ht
+  have hm := pieces_mem he
+  have hm' := pieces_mem he'
+  have hqs : OnSeg s.a s.b q := onSeg_trans (splitPts_onSeg hsn hm.1) (splitPts_onSeg hsn hm.2) hq
+  have hqt : OnSeg t.a t.b q := onSeg_trans (splitPts_onSeg htn hm'.1) (splitPts_onSeg htn hm'.2) hq'
+  by_cases hpar : cross s.d t.d = 0
+  · have hc := col_of_par_common hpar hqs hqt
+    have hts := Col.symm' hsn hc
+    rcases col_meet hall hs ht hc he he' hq hq' with h1 | h1
+    · rcases col_meet hall ht hs hts he' he hq' hq with h2 | h2
+      · left; exact ⟨h1, h2⟩
+      · right
+        rcases h2 with ⟨a, b⟩ | ⟨a, b⟩
+        · left; exact ⟨a.symm, b.symm⟩
+        · right; exact ⟨b.symm, a.symm⟩
+    · right; exact h1
+  · left
+    have i1 : q ∈ splitPts segs s := mem_splitPts.mpr (Or.inr (Or.inr ⟨t, ht, by
+      rw [inter_complete_nonpar hpar hqs hqt]; exact List.mem_singleton.mpr rfl⟩))
+    have hpar' : cross t.d s.d ≠ 0 := by
+      rw [cross_swap]; exact neg_ne_zero.mpr hpar
+    have i2 : q ∈ splitPts segs t := mem_splitPts.mpr (Or.inr (Or.inr ⟨s, hs, by
+      rw [inter_complete_nonpar hpar' hqt hqs]; exact List.mem_singleton.mpr rfl⟩))
+    exact ⟨piece_no_interior hsn he i1 hq, piece_no_interior htn he' i2 hq'⟩
+
+
+/-! ### unordered edges, uniquification -/
+
+/-- the same edge as an unordered pair of points (Prop form of `sameEdge`) -/
+def Same (e f : OutEdge) : Prop := (e.p = f.p ∧ e.q = f.q) ∨ (e.p = f.q ∧ e.q = f.p)
+
+theorem sameEdge_iff (e f : OutEdge) : sameEdge e f = true ↔ Same e f := by
+  simp [sameEdge, Same]
+
+theorem Same.refl (e : OutEdge) : Same e e := Or.inl ⟨rfl, rfl⟩
+
+theorem Same.symm {e f : OutEdge} (h : Same e f) : Same f e := by
+  rcases h with ⟨a, b⟩ | ⟨a, b⟩
+  · exact Or.inl ⟨a.symm, b.symm⟩
+  · exact Or.inr ⟨b.symm, a.symm⟩
+
+theorem Same.trans {e f g : OutEdge} (h1 : Same e f) (h2 : Same f g) : Same e g := by
+  rcases h1 with ⟨a, b⟩ | ⟨a, b⟩ <;> rcases h2 with ⟨c, d⟩ | ⟨c, d⟩
+  · exact Or.inl ⟨a.trans c, b.trans d⟩
+  · exact Or.inr ⟨a.trans c, b.trans d⟩
+  · exact Or.inr ⟨a.trans d, b.trans c⟩
+  · exact Or.inl ⟨a.trans d, b.trans c⟩
+
+theorem sameEdge_false_iff (e f : OutEdge) : sameEdge e f = false ↔ ¬ Same e f := by
+  rw [← sameEdge_iff]; simp
+
+theorem dedupEdges_sublist (l : List OutEdge) : (dedupEdges l).Sublist l := by
+  induction l with
+  | nil => exact List.Sublist.slnil
+  | cons e l ih =>
+    unfold dedupEdges
+    exact List.Sublist.cons_cons e (List.Sublist.trans List.filter_sublist ih)
+
+theorem dedupEdges_rep (l : List OutEdge) : ∀ e ∈ l, ∃ f ∈ dedupEdges l, Same f e := by
+  induction l with
+  | nil => intro e h; cases h
+  | cons e0 l ih =>
+    intro e he
+    unfold dedupEdges
+    rcases List.mem_cons.mp he with rfl | he
+    · exact ⟨e, List.mem_cons_self, Same.refl e⟩
+    · obtain ⟨f, hf, hs⟩ := ih e he
+      by_cases h0 : Same f e0
+      · exact ⟨e0, List.mem_cons_self, (h0.symm).trans hs⟩
+      · refine ⟨f, List.mem_cons_of_mem _ (List.mem_filter.mpr ⟨hf, ?_⟩), hs⟩
+        rw [Bool.not_eq_true', sameEdge_false_iff]; exact h0
+
+theorem dedupEdges_pairwise (l : List OutEdge) : (dedupEdges l).Pairwise (fun e f => ¬ Same e f) := by
+  induction l with
+  | nil => exact List.Pairwise.nil
+  | cons e0 l ih =>
+    unfold dedupEdges
+    refine List.pairwise_cons.mpr ⟨?_, List.Pairwise.sublist List.filter_sublist ih⟩
+    intro f hf
+    have := (List.mem_filter.mp hf).2
+    rw [Bool.not_eq_true', sameEdge_false_iff] at this
+    exact fun h => this h.symm
+
+/-! ### the stacked pieces -/
+
+theorem mem_preFrom {all : List Seg} : ∀ (l : List Seg) (i : Nat) (e : OutEdge), e ∈ preFrom all i l →
+    ∃ k s, l[k]? = some s ∧ e.parent = i + k ∧ e.tags = s.tags ∧ (e.p, e.q) ∈ pieces all s := by
+  intro l
+  induction l with
+  | nil => intro i e h; simp [preFrom] at h
+  | cons s rest ih =>
+    intro i e h
+    unfold preFrom at h
+    rcases List.mem_append.mp h with h | h
+    · obtain ⟨pc, hpc, rfl⟩ := List.mem_map.mp h
+      exact ⟨0, s, by simp, by simp, rfl, hpc⟩
+    · obtain ⟨k, s', hk, hp, ht, hpc⟩ := ih (i + 1) e h
+      exact ⟨k + 1, s', by simpa using hk, by omega, ht, hpc⟩
+
+theorem preFrom_of_piece {all : List Seg} : ∀ (l : List Seg) (i : Nat) (s : Seg) (pc : Pt × Pt),
+    s ∈ l → pc ∈ pieces all s → ∃ e ∈ preFrom all i l, e.p = pc.1 ∧ e.q = pc.2 := by
+  intro l
+  induction l with
+  | nil => intro i s pc hs; cases hs
+  | cons s0 rest ih =>
+    intro i s pc hs hpc
+    unfold preFrom
+    rcases List.mem_cons.mp hs with rfl | hs
+    · exact ⟨⟨pc.1, pc.2, i, s.tags⟩, List.mem_append_left _ (List.mem_map.mpr ⟨pc, hpc, rfl⟩), rfl, rfl⟩
+    · obtain ⟨e, he, h⟩ := ih (i + 1) s pc hs hpc
+      exact ⟨e, List.mem_append_right _ he, h⟩
+
+/-! ### prefilters -/
+
+theorem onSeg_box {a b p : Pt} (h : OnSeg a b p) :
+    rmin a.1 b.1 ≤ p.1 ∧ p.1 ≤ rmax a.1 b.1 ∧ rmin a.2 b.2 ≤ p.2 ∧ p.2 ≤ rmax a.2 b.2 := by
+  obtain ⟨t, t0, t1, hx, hy⟩ := h
+  have key : ∀ x y w : Rat, w = x + t * (y - x) → rmin x y ≤ w ∧ w ≤ rmax x y := by
+    intro x y w hw
+    unfold rmin rmax
+    split_ifs with hxy
+    · have := mul_nonneg t0 (sub_nonneg.mpr hxy)
+      have h2 := mul_nonneg (sub_nonneg.mpr t1) (sub_nonneg.mpr hxy)
+      constructor <;> nlinarith
+    · have hxy' := le_of_lt (not_le.mp hxy)
+      have := mul_nonneg t0 (sub_nonneg.mpr hxy')
+      have h2 := mul_nonneg (sub_nonneg.mpr t1) (sub_nonneg.mpr hxy')
+      constructor <;> nlinarith
+  exact ⟨(key _ _ _ hx).1, (key _ _ _ hx).2, (key _ _ _ hy).1, (key _ _ _ hy).2⟩
+
+theorem no_common_of_sameStrictSide {s t : Seg} (h : sameStrictSide s t) {q : Pt}
+    (h1 : OnSeg s.a s.b q) (h2 : OnSeg t.a t.b q) : False := by
+  obtain ⟨mu, m0, m1, hx, hy⟩ := h1
+  obtain ⟨nu, n0, n1, hx', hy'⟩ := h2
+  have e0 : s.d.1 * (q.2 - s.a.2) - s.d.2 * (q.1 - s.a.1) = 0 := by
+    rw [hx, hy]; simp only [d_fst, d_snd]; ring
+  have e1 : s.d.1 * (q.2 - s.a.2) - s.d.2 * (q.1 - s.a.1) =
+      (1 - nu) * cross s.d (psub t.a s.a) + nu * cross s.d (psub t.b s.a) := by
+    rw [hx', hy']; simp only [cross, psub_fst, psub_snd]; ring
+  rcases h with ⟨c1, c2⟩ | ⟨c1, c2⟩
+  · have a1 := mul_nonneg (sub_nonneg.mpr n1) (le_of_lt c1)
+    rcases eq_or_lt_of_le n0 with hn | hn
+    · subst hn; linarith
+    · have := mul_pos hn c2; linarith
+  · have a1 := mul_nonneg (sub_nonneg.mpr n1) (le_of_lt (neg_pos.mpr c1))
+    rcases eq_or_lt_of_le n0 with hn | hn
+    · subst hn; linarith
+    · have := mul_pos hn (neg_pos.mpr c2); linarith
+
+theorem overlap_hull {a d : Pt} {ts te z : Rat} (h0 : 0 ≤ z) (h1 : z ≤ 1) (hb : Btw ts te z) :
+    ∃ z1 z2 : Rat, along a d z1 ∈ overlap a d ts te ∧ along a d z2 ∈ overlap a d ts te ∧
+      z1 ≤ z ∧ z ≤ z2 := by
+  unfold overlap
+  have n1 : ¬ (ts < 0 ∧ te < 0) := by unfold Btw at hb; grind
+  have n2 : ¬ (ts > 1 ∧ te > 1) := by unfold Btw at hb; grind
+  rw [if_neg n1, if_neg n2]
+  simp only
+  have k1 : rmax (rmin ts te) 0 ≤ z := by unfold rmax rmin; unfold Btw at hb; grind
+  have k2 : z ≤ rmin (rmax ts te) 1 := by unfold rmax rmin; unfold Btw at hb; grind
+  split_ifs with hc
+  · exact ⟨_, _, List.mem_singleton.mpr rfl, List.mem_singleton.mpr rfl, k1, by linarith⟩
+  · exact ⟨_, _, List.mem_cons_self, List.mem_cons_of_mem _ (List.mem_singleton.mpr rfl), k1, k2⟩
+
+/-! ### the uniquification keeps the first parent -/
+
+theorem dedupEdges_first (l : List OutEdge) (hl : l.Pairwise (fun a b => a.parent ≤ b.parent)) :
+    ∀ e ∈ dedupEdges l, ∀ g ∈ l, Same g e → e.parent ≤ g.parent := by
+  induction l with
+  | nil => intro e he; cases he
+  | cons e0 l ih =>
+    intro e he g hg hs
+    have hp := List.pairwise_cons.mp hl
+    unfold dedupEdges at he
+    rcases List.mem_cons.mp he with rfl | he
+    · rcases List.mem_cons.mp hg with rfl | hg
+      · exact Nat.le_refl _
+      · exact hp.1 g hg
+    · have hf := List.mem_filter.mp he
+      have hne : ¬ Same e e0 := by
+        have := hf.2
+        rw [Bool.not_eq_true', sameEdge_false_iff] at this
+        exact this
+      rcases List.mem_cons.mp hg with rfl | hg
+      · exact absurd hs.symm hne
+      · exact ih hp.2 e hf.1 g hg hs
+
+theorem preFrom_parent_ge {all : List Seg} (l : List Seg) (i : Nat) : ∀ e ∈ preFrom all i l, i ≤ e.parent := by
+  intro e he
+  obtain ⟨k, _, _, hp, _, _⟩ := mem_preFrom l i e he
+  omega
+
+theorem pairwise_of_all {α : Type} {R : α → α → Prop} (h : ∀ a b, R a b) : ∀ l : List α, l.Pairwise R := by
+  intro l
+  induction l with
+  | nil => exact List.Pairwise.nil
+  | cons a l ih => exact List.pairwise_cons.mpr ⟨fun b _ => h a b, ih⟩
+
+theorem preFrom_sorted {all : List Seg} : ∀ (l : List Seg) (i : Nat),
+    (preFrom all i l).Pairwise (fun a b => a.parent ≤ b.parent) := by
+  intro l
+  induction l with
+  | nil => intro i; simp [preFrom]
+  | cons s rest ih =>
+    intro i
+    unfold preFrom
+    rw [List.pairwise_append]
+    refine ⟨?_, ih (i + 1), ?_⟩
+    · rw [List.pairwise_map]
+      exact pairwise_of_all (fun _ _ => Nat.le_refl _) _
+    · intro a ha b hb
+      obtain ⟨pc, _, rfl⟩ := List.mem_map.mp ha
+      have := preFrom_parent_ge rest (i + 1) b hb
+      simp only
+      omega
+
 end PorepyVerif.C29
